@@ -286,6 +286,11 @@ func runC08A(c c08Case, rec *ev.Recorder) *Failure {
 			if op.Flag {
 				md = fxtypes.GetCrossChainMetadataManyToOne("New "+sym, sym, 18, crosschaintypes.NewBridgeDenom("eth", sim.ExtAddrN("eth", "c08new", len(e.extra))))
 			}
+			if op.Chain%4 == 3 {
+				// the coin's bank metadata is already stored (as after a genesis import or an upgrade), the proposal repeats it
+				f.App.BankKeeper.SetDenomMetaData(ctx, md)
+				labels["register-coin-with-stored-metadata"] = true
+			}
 			if r := f.RunMsg(ctx, &erc20types.MsgRegisterCoin{Authority: gov, Metadata: md}); r.OK() {
 				p, _ := f.App.Erc20Keeper.GetTokenPair(ctx, md.Base)
 				nt := &sim.Token{Name: sym, Kind: sim.KindModule, Base: md.Base, ERC20: p.GetERC20Contract(), Bridge: map[string]string{}, Contracts: map[string]string{}}
